@@ -99,6 +99,15 @@ theorem model_reload_has_source_shape (s : State) (pools : List Pool) :
     reloadP Generated.C06.reloadClearsNodeSubnetCache s pools = reload s pools := by
   rw [fact_reload_clears_node_subnet_cache]; exact reloadP_true s pools
 
+/-- ConfigurePool: `pool.index` is the position in the sorted slice that becomes the pool table `ci.FloatingIPs` - every
+    pool, also one without addresses, keeps its slot (the model identifies the pool of an address directly,
+    `poolSubnets`); and every cached record is rebuilt with `New(fipConf, …)` on the pool object of the configuration
+    being applied, so after a reload mask / gateway / vlan / node subnets of ALREADY allocated addresses are the new
+    pool's (the model's `toHInfo` and `subnetsOf` read the pools in force). -/
+theorem fact_configure_pool_shape :
+    Generated.C06.poolIndexIsPositionInPoolTable = true ∧ Generated.C06.configurePoolRebuildsEveryRecord = true := by
+  decide
+
 /-- At the regenerated fact value, `NodeSubnetsByIPRanges` is the model's `nodeSubnetsByRanges`. -/
 theorem model_nodeSubnetsByRanges_has_source_shape (s : State) (rss : List Ranges) :
     nodeSubnetsByRangesP Generated.C06.nodeSubnetsSeedFirstIndexOnly s rss = nodeSubnetsByRanges s rss := by
@@ -733,5 +742,53 @@ theorem incoherent_store_counter :
     exact absurd h1 (by decide)
   · cases ch' with
     | mk first pick answer => cases first <;> cases pick <;> cases answer <;> rfl
+
+/-- the topology with an additional pool WITHOUT addresses (gateway 10.5.0.1, lists 10.9.2.0/24) that sorts first -/
+def poolEmpty : Pool := { nodeSubnets := [sn2], ranges := [], gateway := 168099841, bits := 24, vlan := 1 }
+def confEmpty : Conf := { conf with pools := [poolC, poolA, poolEmpty, poolB] }
+def sEmpty : State := run facts (init confEmpty)
+  [.createPod "ns1" "solo-0" .bare "" "" 0 [[(168427522, 168427524)]] true, .listerSync true true]
+def podInA : Pod := { podSolo with ranges := [[(168427522, 168427524)]] }
+
+set_option maxRecDepth 100000 in
+/-- non-vacuity with a pool that has no addresses: the configuration is well formed, the empty pool sorts first and owns
+    nothing; a fresh pod requesting pool A's addresses is offered n1 and the /32 node n3 (not n2) and is bound on n3. -/
+example : wfConf sEmpty.pools = true ∧ sEmpty.pools.map (·.gateway) = [168099841, 168427521, 168427774, 168493057] ∧
+    sceneB sEmpty "ns1" "solo-0" podInA = true ∧ WF sEmpty podInA = true ∧
+    (step facts sEmpty (.filter "ns1" "solo-0" allNodes {} 0)).2.nodes = ["n1", "n3"] ∧
+    (step facts (step facts sEmpty (.filter "ns1" "solo-0" allNodes {} 0)).1
+      (.bind "ns1" "solo-0" 1 "n3" {} 0 0)).2.ips = [⟨168427522, 24, 168427521, 2⟩] := by
+  refine ⟨by decide, by decide, by decide, by decide, by decide, by decide⟩
+
+/-- If pools without addresses were left out of the pool table while `pool.index` still counted them
+    (`poolSubnetsIdx false`), the free addresses of pool A would be looked up one slot too far: Filter would report pool
+    B's node subnets (10.9.2.0/24, 10.9.1.0/24) instead of A's (10.9.1.0/24, 10.9.9.9/32) - offering n2, withholding n3.
+    With the whole table (`fact_configure_pool_shape`) the lookup by index answers what the model's `poolSubnets` answers.
+    Replay corpus/C06/pool-without-addresses.ops. -/
+theorem pool_table_without_empty_pools_counter :
+    poolSubnetsIdx true sEmpty [168427522] = poolSubnets sEmpty [168427522] ∧
+    poolSubnets sEmpty [168427522] = [sn1, sn3] ∧ poolSubnetsIdx false sEmpty [168427522] = [sn2, sn1] := by
+  refine ⟨by decide, by decide, by decide⟩
+
+/-- pool A after a reload that changed its gateway, mask and vlan (same addresses, same node subnets) -/
+def poolA' : Pool := { poolA with gateway := 168427770, bits := 23, vlan := 11 }
+/-- 10.10.0.2 is allocated and reserved under the pod's key, then the configuration is reloaded, then the pod is re-created -/
+def sReparam : State := run facts (init conf)
+  [.scale .sts "ns1" "a" 2, .createPod "ns1" "a-0" .sts "a" "" 2 [[(168427522, 168427522)]] true, .listerSync true true,
+   .filter "ns1" "a-0" allNodes {} 0, .bind "ns1" "a-0" 1 "n1" {} 0 0, .deletePod "ns1" "a-0", .deliver 0 0 0,
+   .reload [poolC, poolA', poolB] 0,
+   .createPod "ns1" "a-0" .sts "a" "" 2 [[(168427522, 168427522)]] true, .listerSync true true]
+
+set_option maxRecDepth 100000 in
+/-- `ipinfo_from_pool` across a reload: the re-created pod REUSES 10.10.0.2 and the annotation carries the gateway, mask
+    and vlan of pool A as configured NOW; a record kept with its pool object of the previous configuration
+    (`toHInfoKept`, excluded by `fact_configure_pool_shape`) would be written with the old ones.
+    Replay corpus/C06/reload-changes-pool-parameters.ops. -/
+theorem ipinfo_kept_record_counter :
+    held sReparam { podPartial with ranges := [[(168427522, 168427522)]] } = [168427522] ∧
+    (step facts (step facts sReparam (.filter "ns1" "a-0" allNodes {} 0)).1 (.bind "ns1" "a-0" 2 "n3" {} 0 0)).2.ips =
+      [⟨168427522, 23, 168427770, 11⟩] ∧
+    toHInfoKept (init conf).pools 168427522 = ⟨168427522, 24, 168427521, 2⟩ := by
+  refine ⟨by decide, by decide, by decide⟩
 
 end Galaxy.Props.C06
